@@ -185,21 +185,23 @@ theorem readSystemInfo_safe (s all : Bytes) (e : Endian) (hsz : SliceLen all.siz
     recovered, and the THREAD LIST (ids, suspend counts, priorities, TEBs, stack bytes, context
     bytes, in file order), the MEMORY served by `get_memory()` (bases and byte-identical contents in
     file order; the 32-bit form drops the regions it cannot describe, i.e. the empty ones) and the
-    MEMORY-INFO LIST are exactly the model's — whatever raw streams were listed earlier in the
-    directory under the same types (last duplicate wins).
+    MEMORY-INFO LIST, the THREAD NAMES (a map by thread id, last duplicate wins; names of arbitrary
+    well-formed UTF-16) and the UNLOADED-MODULE LIST are exactly the model's — whatever raw streams
+    were listed earlier in the directory under the same types (last duplicate wins).
 
     FULL STATEMENT (the goal; see notes/C02.md for the gap):
       theorem decode_encode : WellFormed' m f → decode (encode m e f) = .ok (report m e f)
     What is missing for it are the same three-step arguments (records fit / records decode / stream
-    reads back) for the module list (names + the four CodeView shapes), thread names, unloaded
-    modules, exception and system info; their ingredients — strings (`readStringUtf16_enc`), both
+    reads back) for the module list (names + the four CodeView shapes), exception and system
+    info; their ingredients — strings (`readStringUtf16_enc`), both
     list headers, records, placement of every out-of-band group (`oob_placed`), the served stream
     (`getRawStream_encode`) — are proved, and the engine compares `decode`, `encode` and `report`
     with the real reader on those streams on every run. Here they are only shown to be read without a
     panic outcome (C01's lemmas). -/
 theorem decode_encode_partial {m : DumpModel} {f : MemForm} (wf : WellFormed m f) (e : Endian) :
     ∃ r, decode (encode m e f) = .ok r ∧ r.endian = e ∧ r.flags = m.flags ∧
-      r.threads = (report m e f).threads ∧ r.memory = (report m e f).memory ∧ r.memInfo = (report m e f).memInfo := by
+      r.threads = (report m e f).threads ∧ r.memory = (report m e f).memory ∧ r.memInfo = (report m e f).memInfo ∧
+      r.threadNames = (report m e f).threadNames ∧ r.unloaded = (report m e f).unloaded := by
   have hd := readDump_encode wf e
   have hpl := oob_placed m e f
   have hall : (encode m e f).size < 2 ^ 32 := by rw [hpl.size]; exact wf.size
@@ -223,11 +225,24 @@ theorem decode_encode_partial {m : DumpModel} {f : MemForm} (wf : WellFormed m f
   -- the streams whose round trip is not shown here: total by C01
   obtain ⟨mo, h2⟩ := streamRes_total (B := Bnd (encode m e f)) d (encode m e f) ST_MODULE_LIST
     (fun s => readModuleList MemSizes.default s (encode m e f) e) (fun s hs => readModuleList_safe _ hdb _ _ _ hslice hs)
-  obtain ⟨tn, h6⟩ := streamRes_total (B := Bnd (encode m e f)) d (encode m e f) ST_THREAD_NAMES
-    (fun s => readThreadNames MemSizes.default s (encode m e f) e) (fun s hs => readThreadNames_safe _ hdb _ _ _ hslice hs)
-  obtain ⟨un, h7⟩ := streamRes_total (B := Bnd (encode m e f)) d (encode m e f) ST_UNLOADED_MODULE_LIST
-    (fun s => readUnloadedModuleList MemSizes.default s (encode m e f) e)
-    (fun s hs => readUnloadedModuleList_safe _ hdb _ _ _ hslice hs)
+  -- thread names
+  have hn1 := readThreadNames_enc MemSizes.default (s := (encThreadNames e m.pad (oobOffsets m f).names m.threadNames).toArray)
+    (all := encode m e f) (e := e) (pad := m.pad) (off := (oobOffsets m f).names) (ns := m.threadNames) (by simp)
+    (fun n hn => (wf.names n hn).1) (fun n hn => (wf.names n hn).2) hpl.names hall
+    (by simpa using (core_stream_small wf e (core_names m e f)).1)
+  have h6 := streamRes_ok (d := d) (reader := fun s => readThreadNames MemSizes.default s (encode m e f) e)
+    (getRawStream_encode wf e ST_THREAD_NAMES _ (core_names m e f) d rfl) hn1
+  -- unloaded modules
+  obtain ⟨ur, hu1, hu2⟩ := readUnloadedModuleList_enc MemSizes.default
+    (s := (encUnloadedList e (oobOffsets m f).unloaded m.unloaded).toArray) (all := encode m e f) (e := e)
+    (off := (oobOffsets m f).unloaded) (us := m.unloaded) (by simp) wf.unloaded hpl.unloaded hall
+    (by simpa using (core_stream_small wf e (core_unloaded m e f)).1)
+  have h7 := streamRes_ok (d := d) (reader := fun s => readUnloadedModuleList MemSizes.default s (encode m e f) e)
+    (getRawStream_encode wf e ST_UNLOADED_MODULE_LIST _ (core_unloaded m e f) d rfl) hu1
+  have hnobad : (m.unloaded.any fun u => badImageSize u.base u.size) = false := by
+    rw [List.any_eq_false]
+    intro u hu
+    simp [(wf.unloaded u hu).2.2.2.2.1]
   obtain ⟨x, h8⟩ := streamRes_total (B := Bnd (encode m e f)) d (encode m e f) ST_EXCEPTION
     (fun s => readException s (encode m e f) e) (fun s _ => readException_safe _ _ _)
   obtain ⟨sy, h9⟩ := streamRes_total (B := Bnd (encode m e f)) d (encode m e f) ST_SYSTEM_INFO
@@ -243,11 +258,13 @@ theorem decode_encode_partial {m : DumpModel} {f : MemForm} (wf : WellFormed m f
       (getRawStream_encode wf e ST_MEMORY_LIST _ (core_memory m e) d rfl) hr1
     have h4 := streamRes_notFound (d := d) (reader := fun s => readMemory64List MemSizes.default s (encode m e .mem) e)
       (getRawStream_encode_none wf e ST_MEMORY64_LIST (no_memory64_in_mem m) d rfl)
-    obtain ⟨r, hr, he, hfl, hth, _, hmem, hmi, _⟩ := decode_of hd h1 h2 h3 h4 h5 h6 h7 h8 h9
-    refine ⟨r, hr, he, hfl, ?_, ?_, ?_⟩
+    obtain ⟨r, hr, he, hfl, hth, _, hmem, hmi, htn, hun, _⟩ := decode_of hd h1 h2 h3 h4 h5 h6 h7 h8 h9
+    refine ⟨r, hr, he, hfl, ?_, ?_, ?_, ?_, ?_⟩
     · rw [hth]; simp [report, Except.map, ht2]
     · rw [hmem]; simp [report, Except.map, pickMemory, hr2]
     · rw [hmi]; simp [report, Except.map, hi2]
+    · rw [htn]; rfl
+    · rw [hun]; simp [report, Except.map, hu2, hnobad]
   | mem64 =>
     obtain ⟨rr, hr1, hr2⟩ := readMemory64List_enc MemSizes.default
       (s := (encMemory64List e (oobOffsets m .mem64).memory m.memory).toArray) (all := encode m e .mem64) (e := e)
@@ -257,11 +274,13 @@ theorem decode_encode_partial {m : DumpModel} {f : MemForm} (wf : WellFormed m f
       (getRawStream_encode wf e ST_MEMORY64_LIST _ (core_memory64 m e) d rfl) hr1
     have h3 := streamRes_notFound (d := d) (reader := fun s => readMemoryList MemSizes.default s (encode m e .mem64) e)
       (getRawStream_encode_none wf e ST_MEMORY_LIST (no_memory_in_mem64 m) d rfl)
-    obtain ⟨r, hr, he, hfl, hth, _, hmem, hmi, _⟩ := decode_of hd h1 h2 h3 h4 h5 h6 h7 h8 h9
-    refine ⟨r, hr, he, hfl, ?_, ?_, ?_⟩
+    obtain ⟨r, hr, he, hfl, hth, _, hmem, hmi, htn, hun, _⟩ := decode_of hd h1 h2 h3 h4 h5 h6 h7 h8 h9
+    refine ⟨r, hr, he, hfl, ?_, ?_, ?_, ?_, ?_⟩
     · rw [hth]; simp [report, Except.map, ht2]
     · rw [hmem]; simp [report, Except.map, pickMemory, hr2]
     · rw [hmi]; simp [report, Except.map, hi2]
+    · rw [htn]; rfl
+    · rw [hun]; simp [report, Except.map, hu2, hnobad]
 
 /-- non-vacuity of `WellFormed`: a model with a thread, two regions (one empty), a memory-info
     entry and a duplicate thread-list entry earlier in the directory -/
@@ -269,11 +288,12 @@ def exampleModel : DumpModel :=
   { flags := 5, pad := true,
     threads := [⟨7, 1, 2, 3, 4096, 8192, [1, 2, 3], [9, 9]⟩],
     modules := [], memory := [⟨4096, [10, 11, 12, 13]⟩, ⟨100, []⟩], memInfo := [⟨1, 2, 3, 4, 5, 6, 7⟩],
-    threadNames := [], unloaded := [], exception := none, sysInfo := none, extra := [(3, [0, 0])] }
+    threadNames := [(7, [0x61])], unloaded := [⟨8192, 4096, 1, 2, [0x62]⟩], exception := none, sysInfo := none,
+    extra := [(3, [0, 0])] }
 
 example : WellFormed exampleModel .mem ∧ WellFormed exampleModel .mem64 := by
   constructor <;>
-  · refine ⟨by decide, by decide, ?_, ?_, ?_, ?_⟩
+  · refine ⟨by decide, by decide, ?_, ?_, ?_, ?_, ?_, ?_⟩
     · intro t ht
       simp only [exampleModel, List.mem_singleton] at ht
       subst ht
@@ -285,6 +305,15 @@ example : WellFormed exampleModel .mem ∧ WellFormed exampleModel .mem64 := by
       simp only [exampleModel, List.mem_singleton] at hi
       subst hi
       exact ⟨by decide, by decide, by decide, by decide, by decide, by decide, by decide⟩
+    · intro n hn
+      simp only [exampleModel, List.mem_cons, List.not_mem_nil, or_false] at hn
+      subst hn
+      exact ⟨by decide, by intro c hc; simp only [List.mem_cons, List.not_mem_nil, or_false] at hc; subst hc; left; decide⟩
+    · intro u hu
+      simp only [exampleModel, List.mem_cons, List.not_mem_nil, or_false] at hu
+      subst hu
+      exact ⟨by decide, by decide, by decide, by decide, by decide,
+        by intro c hc; simp only [List.mem_cons, List.not_mem_nil, or_false] at hc; subst hc; left; decide⟩
     · intro x hx
       simp only [exampleModel, List.mem_singleton] at hx
       subst hx
@@ -304,7 +333,7 @@ theorem memory_bytes_exact {m : DumpModel} {f : MemForm} (wf : WellFormed m f) (
     (j : Nat) (hj : j < r.bytes.length) :
     ∃ rep rs, decode (encode m e f) = .ok rep ∧ rep.memory = .ok rs ∧
       memoryByteAt rs (r.base + j) = some r.bytes[j] := by
-  obtain ⟨rep, h1, _, _, _, h2, _⟩ := decode_encode_partial wf e
+  obtain ⟨rep, h1, _, _, _, h2, _, _, _⟩ := decode_encode_partial wf e
   refine ⟨rep, pre ++ r :: post, h1, by rw [h2, hm], ?_⟩
   rw [memoryByteAt_exact pre post r j hj hfit hiso]
   simp [hj]
@@ -342,17 +371,18 @@ example : memoryByteAt [⟨18446744073709551615, [226]⟩] 18446744073709551615 
 /-! ## 5. "The same model written little-endian or big-endian parses to the same result" -/
 
 /-- **C02.5 `endian_agnostic_partial`** — the two byte orders of one model decode to the same flags,
-    threads, memory and memory-info (the fields `decode_encode_partial` covers). For the remaining
+    threads, memory, memory info, thread names and unloaded modules (the fields `decode_encode_partial` covers). For the remaining
     fields see the FULL STATEMENT at `decode_encode_partial`; an ELF debug identifier is BY
     DEFINITION the build id read as a GUID in the dump's byte order (`debugId`), so that one
     derived field is the documented exception (notes/C02.md). -/
 theorem endian_agnostic_partial {m : DumpModel} {f : MemForm} (wf : WellFormed m f) :
     ∃ rl rb, decode (encode m .little f) = .ok rl ∧ decode (encode m .big f) = .ok rb ∧
       rl.endian = .little ∧ rb.endian = .big ∧ rl.flags = rb.flags ∧ rl.threads = rb.threads ∧
-      rl.memory = rb.memory ∧ rl.memInfo = rb.memInfo := by
-  obtain ⟨rl, h1, h2, h3, h4, h5, h6⟩ := decode_encode_partial wf .little
-  obtain ⟨rb, g1, g2, g3, g4, g5, g6⟩ := decode_encode_partial wf .big
-  exact ⟨rl, rb, h1, g1, h2, g2, by rw [h3, g3], by rw [h4, g4]; rfl, by rw [h5, g5]; rfl, by rw [h6, g6]; rfl⟩
+      rl.memory = rb.memory ∧ rl.memInfo = rb.memInfo ∧ rl.threadNames = rb.threadNames ∧ rl.unloaded = rb.unloaded := by
+  obtain ⟨rl, h1, h2, h3, h4, h5, h6, h7, h8⟩ := decode_encode_partial wf .little
+  obtain ⟨rb, g1, g2, g3, g4, g5, g6, g7, g8⟩ := decode_encode_partial wf .big
+  exact ⟨rl, rb, h1, g1, h2, g2, by rw [h3, g3], by rw [h4, g4]; rfl, by rw [h5, g5]; rfl, by rw [h6, g6]; rfl,
+    by rw [h7, g7]; rfl, by rw [h8, g8]; rfl⟩
 
 /-! ## 6. "debug/code identifiers equal to the documented derivation from the CodeView record" -/
 
